@@ -1,5 +1,5 @@
 (* Extraction of the arithmetic model (C03, C04, C07) together with the expression core. *)
-From SE Require Import Expr.IO Expr.Canon.
+From SE Require Import Expr.IO Expr.ArithGuards.
 Require Import ExtrOcamlBasic.
 Extraction "semodel.ml" N_of_digits Z_of_digits digits_of_N tc_lookup tc_table wf
-  hash expr_eqb expr_cmp expr_keyless api_run canonical canonical_witness node_rule.
+  hash expr_eqb expr_cmp expr_keyless api_run canonical canonical_witness node_rule add_operand_ok mul_operand_ok mul_operand_sorted.
